@@ -145,7 +145,7 @@ def describe(c):
 def run(tier, seed):
     rep = core.Report("C20", tier, seed)
     quick = tier == "quick"
-    cfg = f"SPECIFICATION Spec\nCHECK_DEADLOCK FALSE\nCONSTANT MaxLen = {7 if quick else 9}\nINVARIANT Holds\n"
+    cfg = f"SPECIFICATION Spec\nCHECK_DEADLOCK FALSE\nCONSTANT MaxLen = {7 if quick else 8}\nINVARIANT Holds\n"
     r = core.must_pass(core.tlc("MCTinterp", cfg, workers=core.NCPU, timeout=3000, heap="6g"), "tinterp loops")
     rep.add_mc("MCTinterp (scatter loop, run-length loop, cursor bounds)", r)
     cases = [execute(c) for c in gen_cases(tier, seed)]
